@@ -341,7 +341,50 @@ def rule_r7(ctx):
     ctx.r.violations[before:] = [v for v in ctx.r.violations[before:] if "REMOTE_" in v["key"] or "required-keys" in v["key"]]
 
 
-RULES = [rule_r1, rule_r2, rule_r3, rule_r4, rule_r5, rule_r6, rule_r7]
+def rule_r8(ctx, rid="C15.R8"):
+    ctx.r.rule(rid, "the address a peer is compared with is the configured trusted_proxy itself: the name in the peer test is a parameter of the middleware factory that nothing rebinds, and the adjustment is stored only by the generic option loop (a rewritten value - truncated, normalised, replaced by a constant - makes some other peer the trusted proxy)")
+    from ..locks import accesses
+    p = ctx.p
+    f, g = _closure(ctx)
+    outer = f.parent
+    if outer is None or "trusted_proxy" not in outer.params:
+        raise AnalysisError("anchor vanished: trusted_proxy parameter of the middleware factory")
+    n = 0
+    for fx in (outer, f):
+        for x in ast.walk(fx.node):
+            tg = []
+            if isinstance(x, ast.Assign):
+                tg = [t for t0 in x.targets for t in ast.walk(t0)]
+            elif isinstance(x, (ast.AugAssign, ast.AnnAssign)):
+                tg = list(ast.walk(x.target))
+            elif isinstance(x, (ast.For, ast.comprehension)):
+                tg = list(ast.walk(x.target))
+            elif isinstance(x, ast.NamedExpr):
+                tg = [x.target]
+            elif isinstance(x, ast.withitem) and x.optional_vars is not None:
+                tg = list(ast.walk(x.optional_vars))
+            for t in tg:
+                if isinstance(t, ast.Name) and t.id == "trusted_proxy" and isinstance(t.ctx, ast.Store):
+                    n += 1
+                    ctx.r.violation(rid, key_of(fx, None, "trusted-proxy-rebound"), "%s rebinds trusted_proxy (%s): peers are compared with the rewritten value, not with the configured address" % (fx.qual, norm(x)[:70]), fx.loc(x))
+    if not n:
+        ctx.r.ok(rid, "trusted_proxy is bound once, by the call of the factory", outer.loc())
+    adj = p.cls("adjustments.Adjustments")
+    w = 0
+    for a in accesses(p, "trusted_proxy", [adj]):
+        if a.kind != "write":
+            continue
+        w += 1
+        ctx.r.violation(rid, key_of(a.func, None, "trusted-proxy-rewritten"), "%s stores trusted_proxy (%s): the configured address is replaced, another peer becomes the trusted proxy" % (a.func.qual, norm(a.stmt)[:70]), a.loc)
+    # the generic store: setattr(self, k, cast(v)) in Adjustments.__init__
+    init = p.func("adjustments.Adjustments.__init__")
+    sets = [c for c in ast.walk(init.node) if isinstance(c, ast.Call) and dotted(c.func) == "setattr" and len(c.args) == 3 and dotted(c.args[0]) == "self"]
+    ctx.r.floor(rid, len(sets), 1, "generic option store in Adjustments.__init__")
+    if not w:
+        ctx.r.ok(rid, "Adjustments.trusted_proxy is stored only by the generic option loop", init.loc(sets[0]) if sets else init.loc())
+
+
+RULES = [rule_r1, rule_r2, rule_r3, rule_r4, rule_r5, rule_r6, rule_r7, rule_r8]
 
 from ..selftest import M, T, V  # noqa: E402
 
